@@ -41,7 +41,24 @@ any fault inside the pool's own calls during ``reconn``, an unclassified real di
 history continues in *loose* mode: only the invariants P2, "invalidated only by a classified
 disconnect" and "only SQLAlchemy errors escape" are checked.
 
-Mutations caught: see the end of this docstring (filled in by the builder).
+KeyboardInterrupt (thorough) is not an error "the dialect classifies": it only has to propagate unchanged; afterwards
+invariants only.  The handle_error listeners re-classify driver errors only (like real handlers do).
+
+Asides seen while building (outside the statement, not checked): (1) after a *plain* error out of DBAPI ``commit()``
+the RootTransaction stays associated but inactive, and the ``rollback()`` the user must then call emits no DBAPI
+rollback -- the driver transaction with its pending writes survives (on SQLite a busy COMMIT really leaves it open) and
+is committed by the next commit; (2) a handle_error listener that sets ``is_disconnect=True`` for the
+ResourceClosedError raised by ``begin()`` on a closed Connection trips ``assert dbapi_conn_wrapper is not None``.
+
+Mutations caught (private copy, README rule 6; each gave VIOLATION lines on the quick tier):
+ M2  engine/base.py _revalidate_connection: `_invalid_transaction()` check removed              -> silent-continuation
+ M3  _handle_dbapi_exception: `pool._invalidate(...)` never called                              -> retired-connection-used
+ M6  _handle_dbapi_exception: `connection_invalidated=self._is_disconnect` not passed           -> P1-connection_invalidated-flag
+ M7  _handle_dbapi_exception: `self.invalidate(e)` skipped                                      -> P1-not-invalidated
+ M9  RootTransaction._do_commit: `_transaction = None` also when the commit failed              -> silent-continuation
+ M10 _handle_dbapi_exception: listener's `ctx.is_disconnect` ignored                            -> P1-not-invalidated (force_true)
+ M11 pool/base.py _ConnectionFairy.invalidate: always soft                                      -> invalidated-without-disconnect
+ M12 pool/base.py get_connection: `_invalidate_time > starttime` reversed                       -> retired-connection-used
 """
 from __future__ import annotations
 
@@ -403,8 +420,9 @@ def first_event(slice_):
     return None
 
 
-def swallowed_kill(slice_):
-    return any(c.kind in SWALLOWED and c.fault == "disc" for c in slice_)
+def swallowed_kill(slice_, cid):
+    """a disconnect that hit a call whose errors are swallowed, on the connection the Connection still uses"""
+    return any(c.kind in SWALLOWED and c.fault == "disc" and c.cid == cid for c in slice_)
 
 
 class Res:
@@ -515,7 +533,17 @@ def make_step(rec, env, cfg):
             return bad("invalidated-without-disconnect", "conn.invalidated became True")
 
         dead_calls = any(c.dead and c.kind != "close" for c in sl)
-        if ms.loose or (op == "reconn" and (fired or ms.zombie or dead_calls)):
+        # a transparent reconnect with pre_ping pings the idle connection it is given: those three calls are the
+        # pool's (C26), not the Connection's
+        ping_fault = False
+        if ms.status == "inv" and pp and op != "reconn":
+            fresh = {c.cid for c in sl if c.kind == "connect"}
+            first = next((c.cid for c in sl if c.kind != "close" and c.cid not in fresh), None)
+            if first is not None:
+                mine = [c for c in sl if c.cid == first and c.kind != "close"][:3]
+                if any(c.kind == "execute" and c.info == "SELECT 1" for c in mine) or (mine and mine[0].fault is not None):
+                    ping_fault = any(c.fault is not None for c in mine)
+        if ms.loose or ping_fault or (op == "reconn" and (fired or ms.zombie or dead_calls)):
             # the statement is silent here: keep exploring with the invariants only
             m2 = m2.replace(loose=True, nins=ms.nins + (1 if op == "exec" else 0), sps=mech)
             if ev is not None and cls and outcome in ("raise", "exit") and after["invalidated"] and after["cid"] is None:
@@ -532,7 +560,7 @@ def make_step(rec, env, cfg):
             m2 = apply_plain(m2, op, outcome).replace(sps=mech)
             if op == "sel" and outcome == "ok" and not ms.zombie and rows != m2.tx.visible():
                 return bad("select-rows", "select returned %s, model %s" % (sorted(rows), sorted(m2.tx.visible())))
-            if swallowed_kill(sl):
+            if swallowed_kill(sl, after["cid"]):
                 m2 = m2.replace(zombie=True, tx=m2.tx.rollback())
             if ms.status == "inv" and outcome == "ok" and op in ("exec", "sel", "nested", "begin"):
                 if after["invalidated"] or after["cid"] is None:
